@@ -233,6 +233,26 @@ PROPS["C04"] = dict(
     note="Trusted: SQLite, os.stat, the executor stand-ins of C03, solvers, pyvc.",
 )
 
+PROPS["C05"] = dict(
+    modules=["contracts.sched_sql", "contracts.C12_limits", "contracts.C10_dispatch", "contracts.C03_inputs",
+             "contracts.C04_noop", "contracts.C15_atomic", "contracts.C05_crash", "contracts.C05_bounded"],
+    decided=["reset_interrupted_steps leaves no step RUNNING or CHECKING, changes no other step state except to PENDING, and "
+             "hands every attached FAILED step (formerly FAILED or RUNNING) to mark_step_pending", "mark_step_pending "
+             "outdates the BUILT outputs of the step (C03)", "a step is dispatched to RUNNING only without a stored hash, "
+             "and _has_hash mirrors step_hash (C10), so an interrupted step is never skipped",
+             "the completion of a step (output hashes, mark_completed, outcome) is one transaction without await, also on "
+             "the skip path (C03)", "DBSession commits or rolls back exactly once per span (C15)",
+             "rescan_files re-hashes every attached file that is neither PLANNED nor VOLATILE, an UNCONFIRMED one with the "
+             "cause CONFIRMED, all others as EXTERNAL"],
+    undecided=["sentence 1 for every crash point (bounded stand-in: every commit of every short history of the C09 world)",
+               "files on disk: leftovers of an interrupted step, the watch phase", "power loss (WAL with synchronous=OFF)"],
+    assumptions=["SQLite commits a transaction atomically with respect to a killed process"],
+    level="The second sentence of the property and the atomic-commit structure are contracts on the real start-up, dispatch "
+          "and completion functions; the first sentence is a bounded stand-in that kills the real code after every committed "
+          "transaction of every short history and compares the restarted build with the uninterrupted one.",
+    note="Trusted: SQLite atomic commit, the executor stand-ins of C03, solvers, pyvc.",
+)
+
 NOT_BUILT = {}
 
 _loaded = False
